@@ -12,6 +12,8 @@ pub mod c12;
 pub mod c13;
 pub mod c14;
 pub mod c15;
+pub mod c16;
+pub mod c17;
 
 use engine::Space;
 
@@ -31,6 +33,8 @@ pub fn build(id: &str, tier: &str, _seed: u64) -> Option<Box<dyn Space + Sync + 
         "C13" => Box::new(c13::C13::new(tier)),
         "C14" => Box::new(c14::C14::new(tier)),
         "C15" => Box::new(c15::C15::new(tier)),
+        "C16" => Box::new(c16::C16::new(tier)),
+        "C17" => Box::new(c17::C17::new(tier)),
         _ => return None,
     })
 }
